@@ -201,7 +201,7 @@ def sanity_reclass(schema):
 
 
 def simple_check(ctx, mode, rule, require, quick_values, thorough_values, configs_quick=("tl2all",), configs_thorough=("tl2all", "split", "nobytes"),
-                 count_keys=("values",), env=None, fill_death_is_violation=False, sets_quick=None, mem_gb=6, random_quick=0, random_thorough=0, oom_is_violation=False):
+                 count_keys=("values",), env=None, fill_death_is_violation=False, sets_quick=None, mem_gb=6, random_quick=0, random_thorough=0, oom_is_violation=False, extra_texts=()):
     thorough = ctx.tier == "thorough"
     ctx.make_scratch()
     sets = REPO_SETS_ALL if thorough else (sets_quick or REPO_SETS_QUICK)
@@ -214,6 +214,16 @@ def simple_check(ctx, mode, rule, require, quick_values, thorough_values, config
         t, _ = run_mode(ctx, p, mode, env=e, fill_death_is_violation=fill_death_is_violation, mem_gb=mem_gb, oom_is_violation=oom_is_violation)
         for k, v in t.items():
             tot[k] = tot.get(k, 0) + v
+    for xname, xtext in extra_texts:
+        xp = os.path.join(ctx.work, "crafted_%s_%s.tl" % (mode, xname))
+        with open(xp, "w") as f:
+            f.write(xtext)
+        p = build_pkg(ctx, "crafted_%s_%s" % (mode, xname), [xp], "tl2all")
+        p.schema = "crafted:" + xname
+        t, _ = run_mode(ctx, p, mode, env=e, fill_death_is_violation=fill_death_is_violation, mem_gb=mem_gb, oom_is_violation=oom_is_violation)
+        for k, v in t.items():
+            tot[k] = tot.get(k, 0) + v
+            tot["crafted_" + k] = tot.get("crafted_" + k, 0) + v
     nrand = random_thorough if thorough else random_quick
     rpk = random_packages(ctx, nrand, mode) if nrand else []
     for p, sch in rpk:
